@@ -28,6 +28,22 @@ def sh(cmd, cwd=None, env=None, timeout=1800):
     return p.returncode, p.stdout.decode(errors="replace")
 
 
+def _no_warnings(text):
+    """the output without the warnings python prints on stderr (`file.py:LINE: XWarning: ..` plus the echoed source
+    line): their line numbers move with every edit of the file and say nothing about behaviour"""
+    out, skip = [], False
+    for ln in text.splitlines():
+        if skip and ln.startswith("  "):
+            skip = False
+            continue
+        skip = False
+        if re.match(r"^\S+\.py:\d+: \w*Warning", ln):
+            skip = True
+            continue
+        out.append(ln)
+    return "\n".join(out)
+
+
 def clean_repo():
     rc, out = sh("git -C %s status --porcelain" % REPO)
     return out.strip() == ""
@@ -155,7 +171,7 @@ def _confirm(d, tests, pids, root):
         result["refusals"] = refused
         result["caught_by"] = alarms
         result["analysis_errors"] = refused
-        result["equivalent_output"] = bool(out0.strip()) and out0 == result.pop("_out1", None)
+        result["equivalent_output"] = bool(out0.strip()) and _no_warnings(out0) == _no_warnings(result.pop("_out1", None) or "")
         result["confirmed"] = result["equivalent_output"]
         result["caught_by_own_property"] = pid in alarms
     elif result.get("applies"):
